@@ -367,7 +367,7 @@ func nilness(v *Val) int {
 			return -1
 		}
 		return 0
-	case "nonnil", "alloc", "makeslice", "closure", "func", "global", "field", "index":
+	case "nonnil", "alloc", "makeslice", "closure", "func", "global", "field", "index", "arrayptr":
 		return +1
 	case "iface":
 		return +1 // an interface holding a typed value is a non-nil interface
